@@ -22,6 +22,7 @@ import (
 	"go/printer"
 	"go/token"
 	"go/types"
+	"os"
 	"sort"
 	"strconv"
 	"strings"
@@ -1329,7 +1330,17 @@ func (n *normalizer) pureExprRound() bool {
 				return true
 			}
 			text := strings.ReplaceAll(buf.String(), "\n", " ")
-			n.addEdit(filename, n.off(call.Pos()), n.off(call.End()), "("+tt+")("+text+")")
+			repl := "(" + tt + ")(" + text + ")"
+			litLike := ast.Unparen(ret.Results[0])
+			if u, isAddr := litLike.(*ast.UnaryExpr); isAddr && u.Op == token.AND {
+				litLike = ast.Unparen(u.X)
+			}
+			if _, isLit := litLike.(*ast.CompositeLit); isLit {
+				if t := n.info.TypeOf(ret.Results[0]); t != nil && types.Identical(t, sig.Results().At(0).Type()) {
+					repl = "(" + text + ")" // a composite literal of the result type needs no conversion (and stays splittable)
+				}
+			}
+			n.addEdit(filename, n.off(call.Pos()), n.off(call.End()), repl)
 			n.notes = append(n.notes, fmt.Sprintf("call of %s at %s:%d replaced by the expression it returns", funcKeyOf(callee), shortFile(filename), n.fset.Position(call.Pos()).Line))
 			changed = true
 			return false
@@ -2040,6 +2051,9 @@ func (n *normalizer) structAssignRound() bool {
 // field, so nothing observable changes; the result is type-checked like every other round.
 func (n *normalizer) unwrapRound() bool {
 	changed := false
+	if os.Getenv("MQTTCHECK_NO_UNWRAP") != "" {
+		return false
+	}
 	for _, f := range n.pp.Syntax {
 		for _, d := range f.Decls {
 			gd, ok := d.(*ast.GenDecl)
